@@ -497,9 +497,14 @@ single(Fn("t_unit_explicit", ("impl", ["F0"]), ["u64", "u64"], ret="explicit_uni
 single(Fn("o_export", ("impl", ["F0"]), ["u64", "u64"], opts="export"))
 single(Fn("o_nomock", ("impl", ["F0"]), ["u64", "u64"], opts="unimock = false, mockall = false"))
 single(Fn("o_mockapi_off", ("impl", ["F0"]), ["u64", "u64"], opts="mock_api = OMockapiOffMock, unimock = false"))
+single(Fn("b_static", ("impl", ["F0", "Send", "Sync", "'static"]), ["u64", "u64"], calls=["f0"]))
+single(Fn("b_gen", ("gen", ["F1", "'static", "Send"]), ["u64", "u64"], calls=["f1"]))
+single(Fn("b_where", ("where", ["F0", "Sync", "'static"]), ["u64", "u64"], calls=["f0"]))
+single(Fn("b_split", ("split", ["F0", "'static", "F1"]), ["u64", "u64"], calls=["f0", "f1"]))
 # async
 single(Fn("af0", ("any", []), [], is_async=True, props=("C01", "C14")))
 single(Fn("af1", ("impl", ["Af0"]), ["u64"], is_async=True, calls=["af0"], props=("C01", "C14")))
+single(Fn("ab_static", ("impl", ["Af0", "Send", "Sync", "'static"]), ["u64", "u64"], is_async=True, calls=["af0"]))
 single(Fn("af2", ("impl", ["Af1", "F1"]), ["u64", "u64"], is_async=True, calls=["af1", "f1"], props=("C01", "C14")))
 single(Fn("af3", ("gen", ["Af2", "Af0"]), ["u64", "u64", "u64"], is_async=True, calls=["af2", "af0"], props=("C01", "C14")))
 single(Fn("af4", ("where", ["Af3"]), ["u64", "u32", "u64", "u32"], is_async=True, calls=["af3"], props=("C01", "C14")))
@@ -1047,6 +1052,11 @@ usingle(Fn("und2", ("nodeps", []), ["u64", "u64"], opts="no_deps"), "Und2Mock")
 usingle(Fn("und3", ("nodeps", []), ["u64", "u64", "u64"], opts="no_deps"), "Und3Mock")
 usingle(Fn("und_destr", ("nodeps", []), ["destr:pair", "u64"], opts="no_deps"), "UndDestrMock")
 usingle(Fn("aund2", ("nodeps", []), ["u64", "u64"], opts="no_deps", is_async=True), "Aund2Mock")
+usingle(Fn("ub_static", ("impl", ["U0", "Send", "Sync", "'static"]), ["u64", "u64"], calls=["u0"]), "UbStaticMock")
+usingle(Fn("ub_gen", ("gen", ["U1", "'static"]), ["u64", "u64"], calls=["u1"]), "UbGenMock")
+usingle(Fn("ub_where", ("where", ["U0", "Sync", "'static"]), ["u64", "u64"], calls=["u0"]), "UbWhereMock")
+usingle(Fn("aub_static", ("impl", ["Au0", "Send", "Sync", "'static"]), ["u64", "u64"], is_async=True, calls=["au0"]), "AubStaticMock")
+usingle(Fn("ub_any", ("impl", ["::core::any::Any", "U0"]), ["u64", "u64"], calls=["u0"]), "UbAnyMock")
 usingle(Fn("au_unit", ("impl", ["Au0"]), ["u64", "u64"], ret="unit", is_async=True, calls=["au0"]), "AuUnitMock")
 usingle(Fn("u_unit", ("impl", ["U0"]), ["u64", "u64"], ret="unit", calls=["u0"]), "UUnitMock")
 usingle(Fn("und4", ("nodeps", []), ["u64", "u64", "u64", "u64"], opts="no_deps"), "Und4Mock")
@@ -1068,6 +1078,15 @@ for f in um_fns:
     f.section = "unmock"
     UNMOCK.append(f)
 unmock_traits.append(("Um", False))
+umb_fns = [
+    Fn("umba", ("impl", ["U0", "'static"]), ["u64", "u64"], calls=["u0"]),
+    Fn("umbb", ("gen", ["U0", "Send", "Sync"]), ["u64", "u64"], calls=["u0"]),
+]
+module("umb", "Umb", umb_fns, opts="mock_api = UmbMock, export", props=("C01", "C11"))
+for f in umb_fns:
+    f.section = "unmock"
+    UNMOCK.append(f)
+unmock_traits.append(("Umb", False))
 umn_fns = [
     Fn("umna", ("nodeps", []), ["u64", "u64"]),
     Fn("umnb", ("nodeps", []), ["u64", "u64"]),
